@@ -4,6 +4,7 @@ mod defrag;
 mod fuzz;
 mod observe;
 mod project;
+mod states;
 
 use serde_json::{json, Value};
 use std::io::{BufRead, BufReader, BufWriter, Write};
@@ -79,6 +80,9 @@ fn main() {
         "fuzz" => fuzz::cmd_fuzz(&args[2..]),
         "defrag" => defrag::cmd_defrag(&args[2..]),
         "defrag-fuzz" => defrag::cmd_defrag_fuzz(&args[2..]),
+        "states-sweep" => states::cmd_sweep(&args[2..]),
+        "states-run" => states::cmd_run(&args[2..]),
+        "states-fuzz" => states::cmd_fuzz(&args[2..]),
         "defrag-stream" => defrag::cmd_defrag_stream(&args[2..]),
         _ => {
             eprintln!("unknown command");
